@@ -599,8 +599,9 @@ def write_evidence(check, tier, base_seed, agg, wall_s, extra):
         "wall_s": round(wall_s, 2),
         "violations": extra.get("violations_reported", 0),
     }
-    os.makedirs(os.path.join(VERIF_DIR, "evidence"), exist_ok=True)
-    path = os.path.join(VERIF_DIR, "evidence", f"{check.ID}.json")
+    evdir = os.environ.get("VERIF_EVIDENCE_DIR") or os.path.join(VERIF_DIR, "evidence")   # scratch dir for mutant runs
+    os.makedirs(evdir, exist_ok=True)
+    path = os.path.join(evdir, f"{check.ID}.json")
     tmp = path + ".tmp"
     with open(tmp, "w") as f:
         json.dump(doc, f, indent=1, default=str)
